@@ -2,7 +2,7 @@ import UgoVerif.Proofs.VMExec
 import UgoVerif.Spec.Sem
 import UgoVerif.Model.Compile
 import UgoVerif.Gen.Opcodes
-import UgoVerif.Proofs.CompSimExpr
+import UgoVerif.Proofs.CompSimStmt
 /-
   C02 — compiled execution follows the documented source-level semantics.
 
@@ -440,6 +440,55 @@ theorem compile_expr_correct (F : FloatOps) (e : Ast.Expr) (cs cs' : Compile.CSt
   exact ⟨rfl, sh, hg, sim K code bp lo env s t fuel _ _ hK hcode hvm hip hsp hh hloc h1⟩
 
 
+open UgoVerif.CompSim in
+/-- **compile_exprstmt_correct** — the first statement on top of the expression slice: the expression
+    statement `e;` (code of `e`, then POP), `e` in `ExprF`, same hypotheses as `compile_expr_correct`.
+    If the reference semantics completes normally, the VM gets behind the POP with `sp` where it was, the
+    stack below it, frames and handlers unchanged and the heap equal; if it completes with a thrown
+    error, the VM is at `failWith` with the same error object.  No other completion is possible, the
+    environment and the interpreter state are unchanged. -/
+theorem compile_exprstmt_correct (F : FloatOps) (pos : Ast.Pos) (e : Ast.Expr) (cs cs' : Compile.CState)
+    (hc : Compile.runCM (Compile.compileStmt (.expr pos e)) cs = (.ok (), cs'))
+    (hF : ExprF (localIdx cs) e = true)
+    (K : Array Compile.Const) (code : Code) (bp lo : Nat) (env : Sem.Env) (s t : State)
+    (hK : Compile.IsPre cs'.constants K)
+    (hcode : CodeHas code cs'.insts cs.insts.size)
+    (hvm : VMOk K code bp lo s)
+    (hip : s.ip + 1 = (cs.insts.size : Int))
+    (hsp : s.sp + need e ≤ 2048)
+    (hh : t.heap = s.heap)
+    (hloc : LocalsOK (localIdx cs) env s bp lo)
+    (fuel : Nat) (ss ss1 : Sem.SemSt) (c : Sem.Comp) (env' : Sem.Env) (t1 : State)
+    (hsem : exec ((Sem.execStmt F fuel env (.expr pos e)).run ss) t = (.ok ((c, env'), ss1), t1)) :
+    ss1 = ss ∧ env' = env ∧ Shape cs cs' ∧ OutcomeS F s t1.heap cs'.insts.size c := by
+  have henv : ∀ n, (localIdx cs n).isSome → (Sem.lookupEnv n env).isSome := by
+    intro n hn
+    cases hi : localIdx cs n with
+    | none => simp [hi] at hn
+    | some i =>
+      obtain ⟨a, v, hl, _⟩ := hloc n i hi
+      simp [hl]
+  cases fuel with
+  | zero =>
+    rw [execStmt_zero, run_liftM] at hsem
+    unfold withSt at hsem
+    obtain ⟨_, _, h1, _⟩ := exec_bind_inv hsem
+    cases h1
+  | succ fuel =>
+    rw [run_execStmt_expr F (localIdx cs) env henv fuel pos e hF ss] at hsem
+    unfold withSt at hsem
+    obtain ⟨p, t', h1, h2⟩ := exec_bind_inv hsem
+    obtain ⟨h3, rfl⟩ := exec_pure_inv h2
+    simp only [Prod.mk.injEq] at h3
+    obtain ⟨rfl, rfl⟩ := h3
+    obtain ⟨r, t2, h4, h5⟩ := exec_bind_inv h1
+    obtain ⟨h6, rfl⟩ := exec_pure_inv h5
+    obtain ⟨sh, sim⟩ := sim_exprStmt F pos e cs cs' hc hF
+    have o := sim K code bp lo env s t fuel r _ hK hcode hvm hip hsp hh hloc h4
+    simp only [Prod.mk.injEq] at h6
+    obtain ⟨rfl, rfl⟩ := h6
+    exact ⟨rfl, rfl, sh, o⟩
+
 /-! #### non-vacuity: `(1 + x) * 2 < 7 || !b` with `x = 3`, `b = false` -/
 namespace Ex
 open UgoVerif.Ast UgoVerif.CompSim
@@ -556,6 +605,65 @@ example : ∃ s', Reach F0 s0 s' ∧ s'.stack[2]! = .bool true ∧ s'.sp = 3 ∧
         (Compile.IsPre.refl _) hcode0 hvm0 hip0 hsp0 rfl hloc0 20 {} ss1 _ t1 hr
       obtain ⟨_, _, _, s', hreach, hsame, _, hip, hsp, _, hget⟩ := h
       exact ⟨s', hreach, hget, by rw [hsp]; rfl, by rw [hip, hsz0]; rfl, hsame.frames⟩
+
+
+/-! the same instance as an expression statement `(1 + x) * 2 < 7 || !b;` -/
+
+def cs2 : Compile.CState := (Compile.runCM (Compile.compileStmt (.expr 12 e0)) cs0).2
+def code2 : Code := { insts := cs2.insts, numParams := 0, numLocals := 2, variadic := false }
+def s2 : State :=
+  { newState #[code2]
+      #[.box (.int 3#64), .box (.bool false), .fn 0 none] (cs2.constants.map constV) 2 0 with
+    stack := ((Array.replicate stackSize V.nil).set! 0 (.int 3#64)).set! 1 (.bool false)
+    sp := 2, ip := -1, frameIndex := 1
+    frames := emptyFrames.modify 0 fun f => { f with fn := some 2, bp := 0 } }
+
+theorem hc2 : Compile.runCM (Compile.compileStmt (.expr 12 e0)) cs0 = (.ok (), cs2) := by
+  have h : isOkU (Compile.runCM (Compile.compileStmt (.expr 12 e0)) cs0).1 = true := by decide +kernel
+  unfold cs2
+  cases hr : Compile.runCM (Compile.compileStmt (.expr 12 e0)) cs0 with
+  | mk r c =>
+    rw [hr] at h
+    cases r with
+    | ok u => rfl
+    | error e => simp [isOkU] at h
+
+attribute [irreducible] cs2
+
+theorem hvm2 : VMOk cs2.constants code2 0 2 s2 where
+  abort := rfl
+  size := by decide +kernel
+  code := ⟨2, 0, none, by decide +kernel, by decide +kernel, rfl⟩
+  bp := by decide +kernel
+  consts := constsOK_map _
+  lo := by decide +kernel
+
+theorem hloc2 : LocalsOK (localIdx cs0) env0 s2 0 2 := by
+  intro n i h
+  obtain ⟨a, v, h1, h2, h3, h4, h5⟩ := hloc0 n i h
+  exact ⟨a, v, h1, h2, h3, h4, h5⟩
+
+theorem hcode2 : CodeHas code2 cs2.insts cs0.insts.size := fun _ _ _ => rfl
+theorem hip2 : s2.ip + 1 = (cs0.insts.size : Int) := by decide +kernel
+theorem hsp2 : s2.sp + need e0 ≤ 2048 := by decide +kernel
+theorem hsz2 : cs2.insts.size = 27 := by decide +kernel
+
+/-- the hypotheses of `compile_exprstmt_correct` are satisfiable; on this instance: the VM gets behind
+    the POP with `sp = 2` again -/
+example : ∃ s', Reach F0 s2 s' ∧ s'.sp = 2 ∧ s'.ip + 1 = 27 ∧ s'.stack[0]! = .int 3#64 := by
+  have hres : (match (exec ((Sem.execStmt F0 21 env0 (.expr 12 e0)).run {}) s2).1 with
+      | .ok ((.normal, _), _) => true | _ => false) = true := by decide +kernel
+  cases hr : exec ((Sem.execStmt F0 21 env0 (.expr 12 e0)).run {}) s2 with
+  | mk r t1 =>
+    rw [hr] at hres
+    match r, hres with
+    | .ok ((.normal, env'), ss1), _ =>
+      have h := compile_exprstmt_correct F0 12 e0 cs0 cs2 hc2 hF0 cs2.constants code2 0 2 env0 s2 s2
+        (Compile.IsPre.refl _) hcode2 hvm2 hip2 hsp2 rfl hloc2 21 {} ss1 _ env' t1 hr
+      obtain ⟨_, _, _, s', hreach, _, _, hip, hsp, hag⟩ := h
+      refine ⟨s', hreach, by rw [hsp]; rfl, by rw [hip, hsz2]; rfl, ?_⟩
+      rw [hag.2 0 (by decide +kernel)]
+      decide +kernel
 
 end Ex
 /-- the source-level statement (not proved; tested by stream `sem`; `compile_expr_correct` above is its
